@@ -161,6 +161,37 @@ example :
     specStruct true (some 2) ms = ⟨12, 2, [⟨0, 0, 0⟩, ⟨8, 1, 0⟩, ⟨96, 0, 0⟩]⟩ := by
   decide
 
+/-! ## `_Alignas` -/
+
+/-- **C08 (`_Alignas`).**  What `declspec` and `struct_members` make of an alignment specifier on a member (the two
+    assignments are regenerated from parse.c): `_Alignas(type-name)` gives the member exactly `_Alignof(type-name)` —
+    not its size, whatever the operand (array, struct, union, pointer, scalar) — and `_Alignas(n)` gives `n`; without a
+    specifier (or with `_Alignas(0)`, C11 6.7.5p6) the member keeps the alignment of its type. -/
+theorem C08_alignas :
+    (∀ (d : MemDecl) (aty ty : Ty) (rest : Members) (sa aa s a : Int) (tl : List Mem),
+      aty.sizeAlign = .ok (sa, aa) → ty.sizeAlign = .ok (s, a) → rest.toMems = .ok tl → aa ≠ 0 →
+      (Members.consT d aty ty rest).toMems =
+        .ok ({ size := s, align := aa, bitWidth := d.bitWidth, named := d.named } :: tl)) ∧
+    (∀ (d : MemDecl) (ty : Ty) (rest : Members) (s a : Int) (tl : List Mem),
+      ty.sizeAlign = .ok (s, a) → rest.toMems = .ok tl →
+      (Members.cons d ty rest).toMems =
+        .ok ({ size := s, align := if d.alignas ≠ 0 then d.alignas else a, bitWidth := d.bitWidth, named := d.named } :: tl)) := by
+  constructor
+  · intro d aty ty rest sa aa s a tl h1 h2 h3 hne
+    simp only [Members.toMems, h1, h2, h3, bind, Except.bind, pure, Except.pure, memberAlign, alignasOfType, ne_eq, hne,
+      not_false_eq_true, if_true]
+  · intro d ty rest s a tl h2 h3
+    simp only [Members.toMems, h2, h3, bind, Except.bind, pure, Except.pure, memberAlign, alignasOfConst]
+    rfl
+
+-- non-vacuity: `struct { char tag; _Alignas(int[3]) unsigned char buf[12]; }` is 16/4 with buf at 4 (a size-for-alignment
+-- mix-up would give 24/12 with buf at 12)
+example :
+    let t : Ty := .struct false none (.cons ⟨0, none, true⟩ (.prim .char)
+      (.consT ⟨0, none, true⟩ (.arr (.prim .int) 3) (.arr (.prim .uchar) 12) .nil))
+    t.ok true = true ∧ t.layout = .ok ⟨16, 4, [⟨0, 0⟩, ⟨4, 0⟩]⟩ ∧ specTy t = ⟨16, 4, [⟨0, 0, 0⟩, ⟨32, 4, 0⟩]⟩ := by
+  decide
+
 /-! ## whole types: nested and anonymous aggregates, arrays, pointers, flexible array members -/
 
 /-- full statement for type descriptions (`Ty`: scalars, enum, pointers, arrays, flexible last member, struct/union with
